@@ -69,8 +69,8 @@ KEYS = ["K", "Type", "A B", "é", "a#b", "x"]
 BOUNDS = {
     "quick": {"atom_dev": 2, "long_dev": 1, "pair_dev": 1, "tree_dev": 1, "tree_nodes": 5, "tree_rot": 1, "pair_all_dicts": False,
               "doc_bufsiz": [4096, 1, 2, 3, 7], "split": {"atom": 1, "long": 1, "pair": 1, "tree": 1}},
-    "thorough": {"atom_dev": 3, "long_dev": 2, "pair_dev": 2, "tree_dev": 2, "tree_nodes": 6, "tree_rot": 3, "pair_all_dicts": True,
-                 "doc_bufsiz": [4096, 1, 2, 3, 4, 5, 7, 8, 13, 16, 31, 64], "split": {"atom": 12, "long": 12, "pair": 4, "tree": 8}},
+    "thorough": {"atom_dev": 3, "long_dev": 2, "pair_dev": 1, "pair2_dev": 2, "tree_dev": 1, "tree_nodes": 6, "tree_rot": 3, "pair_all_dicts": True,
+                 "doc_bufsiz": [4096, 1, 2, 3, 5, 7, 8, 13], "split": {"atom": 8, "long": 24, "pair": 1, "pair2": 4, "tree": 1}},
 }
 
 
@@ -136,8 +136,27 @@ def pair_values(all_dicts: bool) -> List[Any]:
     return out
 
 
+# thorough only: pairs over a 10-representative subset with one more deviation
+REPS2_IDX = [0, 2, 3, 4, 5, 7, 9, 11, 12, 13]
+
+
+def pair2_values() -> List[Any]:
+    reps = [REPS[i] for i in REPS2_IDX]
+    out = [[a, b] for a in reps for b in reps]
+    n = len(reps)
+    for i, a in enumerate(reps):
+        for j in ((i + 3) % n, (5 * i + 1) % n):
+            out.append({"K": a, "L": reps[j]})
+    return out
+
+
+FAMILIES = {"quick": ("atom", "long", "pair", "tree"), "thorough": ("atom", "long", "pair", "pair2", "tree")}
+
+
 def family(fam: str, tier: str) -> Tuple[List[Any], int]:
     b = BOUNDS[tier]
+    if fam == "pair2":
+        return pair2_values(), b["pair2_dev"]
     if fam == "atom":
         return ATOMS, b["atom_dev"]
     if fam == "long":
@@ -152,7 +171,9 @@ def family(fam: str, tier: str) -> Tuple[List[Any], int]:
 META = {
     "rule": (
         "case = (value, spelling): for every value of four families (atom: %d values; long: the 256 byte values as eight "
-        "32-byte strings; pair: all ordered pairs of %d token-kind representatives as [a b] and <</K a/L b>>; tree: all ordered "
+        "32-byte strings; pair: all ordered pairs of %d token-kind representatives as [a b], and as <</K a/L b>> (quick: every "
+        "representative in each slot with two partners; thorough: all ordered pairs; thorough also pair2 = the same over 10 representatives "
+        "with one more deviation); tree: all ordered "
         "trees up to tree_nodes nodes with depth<=3, width<=3, array/dict alternating, leaves cycled from a %d-atom pool) every "
         "choice vector of the speller with at most *_dev deviations from the canonical spelling (separator at every token "
         "boundary incl. leading/trailing and EOF, 13 separators incl. NUL and comments; int/real forms; per name byte raw/#XX/#xx; "
@@ -515,7 +536,7 @@ class Judge:
 # --------------------------------------------------------------------------- shards
 def shards(tier):
     out = []
-    for fam in ("atom", "long", "pair", "tree"):
+    for fam in FAMILIES[tier]:
         vals, _ = family(fam, tier)
         R = BOUNDS[tier]["split"][fam]
         for i in range(len(vals)):
